@@ -223,7 +223,7 @@ def text_edge(func: FuncInfo, e: ast.AST | None, side: str) -> str | None:
 def is_sep_only(func: FuncInfo, e: ast.AST | None) -> bool:
 	if isinstance(e, ast.Constant) and isinstance(e.value, str) and e.value:
 		return all(_is_sep_char(c) for c in e.value)
-	if isinstance(e, ast.Name) and e.id in ('delimiter', 'separator', 'sep'):
+	if isinstance(e, ast.Name) and e.id in ('delimiter', 'separator', 'sep') and func is not None:
 		d = _default_of_param(func, e.id)
 		return d is not None and is_sep_only(func, d)
 	if isinstance(e, ast.Attribute) and attr_chain(e) in ('os.sep', 'os.path.sep'):
@@ -237,6 +237,19 @@ def has_sep(e: ast.AST | None) -> bool:
 		return any(_is_sep_char(c) for c in e.value)
 	if isinstance(e, ast.JoinedStr):
 		return any(has_sep(v) for v in e.values if isinstance(v, ast.Constant))
+	return False
+
+
+def _inside_measure(root: ast.AST, name_node: ast.Name) -> bool:
+	"""the occurrence of the element variable is only measured: x.count(sep), len(x.split(sep)), int(x...)"""
+	for n in ast.walk(root):
+		if isinstance(n, ast.Call):
+			if isinstance(n.func, ast.Attribute) and n.func.attr == 'count' and n.func.value is name_node and n.args and is_sep_only(None, n.args[0]):  # type: ignore
+				return True
+			if isinstance(n.func, ast.Name) and n.func.id in ('len', 'int') and any(x is name_node for a in n.args for x in ast.walk(a)):
+				inner = n.args[0]
+				if n.func.id == 'int' or (isinstance(inner, ast.Call) and isinstance(inner.func, ast.Attribute) and inner.func.attr in ('split', 'elements')):
+					return True
 	return False
 
 
@@ -265,7 +278,31 @@ def find_sites(func: FuncInfo, taint: Taint) -> list[Site]:
 				lab = taint.of(pat)
 				# a pattern interpolating names is the sink; constant patterns on tainted subjects are generic (\w+) and not name-relative
 				sites.append(Site(func, n, 'regex', subj, pat, lab, not lab, 'pattern interpolates no name-carrying value'))
-		elif isinstance(n, ast.Compare) and len(n.ops) == 1:
+		if isinstance(n, ast.Call):
+			# ordering of structured strings: sorted(xs[, key=...]), xs.sort([key=...]), min/max(xs)
+			fname = n.func.id if isinstance(n.func, ast.Name) else (n.func.attr if isinstance(n.func, ast.Attribute) else None)
+			coll = None
+			if fname in ('sorted', 'min', 'max') and isinstance(n.func, ast.Name) and n.args:
+				coll = n.args[0]
+			elif fname == 'sort' and isinstance(n.func, ast.Attribute):
+				coll = n.func.value
+			if coll is not None:
+				lab = taint.of(coll)
+				if lab:
+					keyf = next((k.value for k in n.keywords if k.arg == 'key'), None)
+					structural = False
+					if isinstance(keyf, ast.Lambda) and len(keyf.args.args) == 1:
+						pname = keyf.args.args[0].arg
+						body = keyf.body
+						# structural keys: x.count(sep), len(DSN.elements(x)), int(...) of an element — never the string itself
+						uses_raw = any(isinstance(x, ast.Name) and x.id == pname and not _inside_measure(body, x) for x in ast.walk(body))
+						structural = not uses_raw
+					sites.append(Site(func, n, 'order', coll, keyf, lab, structural, 'ordered by a structural measure (separator count / parsed integers), not by string comparison'))
+		if isinstance(n, ast.Compare) and len(n.ops) == 1 and isinstance(n.ops[0], (ast.Lt, ast.LtE, ast.Gt, ast.GtE)):
+			la, lb = taint.of(n.left), taint.of(n.comparators[0])
+			if la and lb and is_string_labels(la) and is_string_labels(lb):
+				sites.append(Site(func, n, 'order', n.left, n.comparators[0], la | lb, False, 'compares two structured strings lexicographically'))
+		if isinstance(n, ast.Compare) and len(n.ops) == 1:
 			op = n.ops[0]
 			if isinstance(op, (ast.In, ast.NotIn)):
 				hay, needle = n.comparators[0], n.left
